@@ -253,10 +253,6 @@ structure Wcs (Sky : Type) (α : Type) where
   toSky : Pt α → Sky
   /-- `pixel_scale_angle_at_skycoord(skycoord, wcs)[1:]` -/
   loc : Sky → Local α
-  /-- `PixCoord.from_sky(skycoord, wcs)` = astropy's `skycoord_to_pixel`: the route `SkyRegion.contains` takes for the
-  POSITIONS.  A different function from `wcs.world_to_pixel` (the route of the region conversions): it works on
-  `wcs.sub([longitude, latitude])`, i.e. with the pixel axes re-ordered for a latitude-first WCS. -/
-  fromSky : Sky → Pt α
 
 /-- `pixel_scale_angle_at_skycoord(skycoord, wcs)` as the conversion code uses it:
 `(pixcoord, scale, angle)`. -/
@@ -422,8 +418,10 @@ def PixR.contains : PixR α → Pt α → Bool
   | .text c _ m _, p => (PReg.empty .text c c m.inc : PReg α).contains p
 
 /-- `SkyRegion.contains(skycoord, wcs)`:
-circle, ellipse, rectangle, polygon, the annuli (base class): `self.to_pixel(wcs).contains(PixCoord.from_sky(skycoord, wcs))`
-— the region through `wcs.world_to_pixel` (`toPix`), the positions through `PixCoord.from_sky` (`fromSky`);
+circle, ellipse, rectangle, polygon, the annuli (base class):
+`x, y = wcs.world_to_pixel(skycoord); self.to_pixel(wcs).contains(PixCoord(x, y))` — region and positions through the same
+`wcs.world_to_pixel` (`toPix`); before b44d15d (finding F205) the positions went through `PixCoord.from_sky`, which
+exchanges the pixel axes of a latitude-first WCS;
 `PointSkyRegion` / `LineSkyRegion` (and `TextSkyRegion`, a subclass of the point) override it without any
 conversion: `in_reg = False` (or an array of `False`), returned as is or negated when excluded — per position
 `not include`;
@@ -431,15 +429,15 @@ conversion: `in_reg = False` (or an array of `False`), returned as is or negated
 negated unless `self.meta.get('include', True)`. -/
 def SkyR.contains (w : Wcs Sky α) : SkyR Sky α → Sky → Bool
   | .compound op a b m _, q => withInclude m.inc (op.apply (a.contains w q) (b.contains w q))
-  | .circle c r m v, q => ((SkyR.circle c r m v).toPixel w).contains (w.fromSky q)
-  | .ellipse c wd h d m v, q => ((SkyR.ellipse c wd h d m v).toPixel w).contains (w.fromSky q)
-  | .rect c wd h d m v, q => ((SkyR.rect c wd h d m v).toPixel w).contains (w.fromSky q)
-  | .polygon vs m v, q => ((SkyR.polygon vs m v).toPixel w).contains (w.fromSky q)
-  | .circleAnnulus c r1 r2 m v, q => ((SkyR.circleAnnulus c r1 r2 m v).toPixel w).contains (w.fromSky q)
+  | .circle c r m v, q => ((SkyR.circle c r m v).toPixel w).contains (w.toPix q)
+  | .ellipse c wd h d m v, q => ((SkyR.ellipse c wd h d m v).toPixel w).contains (w.toPix q)
+  | .rect c wd h d m v, q => ((SkyR.rect c wd h d m v).toPixel w).contains (w.toPix q)
+  | .polygon vs m v, q => ((SkyR.polygon vs m v).toPixel w).contains (w.toPix q)
+  | .circleAnnulus c r1 r2 m v, q => ((SkyR.circleAnnulus c r1 r2 m v).toPixel w).contains (w.toPix q)
   | .ellipseAnnulus c w1 w2 h1 h2 d m v, q =>
-      ((SkyR.ellipseAnnulus c w1 w2 h1 h2 d m v).toPixel w).contains (w.fromSky q)
+      ((SkyR.ellipseAnnulus c w1 w2 h1 h2 d m v).toPixel w).contains (w.toPix q)
   | .rectAnnulus c w1 w2 h1 h2 d m v, q =>
-      ((SkyR.rectAnnulus c w1 w2 h1 h2 d m v).toPixel w).contains (w.fromSky q)
+      ((SkyR.rectAnnulus c w1 w2 h1 h2 d m v).toPixel w).contains (w.toPix q)
   | .point _ m _, _ => !m.inc.truthy
   | .line _ _ m _, _ => !m.inc.truthy
   | .text _ _ m _, _ => !m.inc.truthy
